@@ -111,6 +111,7 @@ func cmdWorker(args []string) int {
 	runs := fs.Int("runs", 0, "override run count")
 	digests := fs.Bool("digests", false, "print one digest line per run")
 	announce := fs.Bool("announce", false, "announce every run on stderr before it starts (crash hunting)")
+	traced := fs.Bool("traced", false, "run with tracing on (self test: logging must not perturb a run)")
 	fs.Parse(args)
 	p := props[*propID]
 	if p == nil {
@@ -157,7 +158,7 @@ func cmdWorker(args []string) int {
 			st.FirstSeed = rs
 		}
 		st.LastSeed = rs
-		v, r := Exec(p, *tier, rs, nil, nil, false, false)
+		v, r := Exec(p, *tier, rs, nil, nil, false, *traced)
 		st.Absorb(r)
 		if *digests {
 			emit(workerMsg{Type: "digest", Run: uint64(i), Digest: r.Digest()})
@@ -522,8 +523,8 @@ func runRaceMode(bin string, p Property, seed uint64, budget float64) (*Replay, 
 	cmd.Env = append(os.Environ(), "GORACE=halt_on_error=1 exitcode=66", "GOMAXPROCS="+strconv.Itoa(runtime.NumCPU()))
 	out, err := cmd.CombinedOutput()
 	info := map[string]any{
-		"kind":    "runtime monitoring under the Go race detector (NOT deterministic simulation; interleavings are chosen by the Go scheduler)",
-		"summary": lastLines(string(out), 1),
+		"kind":     "runtime monitoring under the Go race detector (NOT deterministic simulation; interleavings are chosen by the Go scheduler)",
+		"summary":  lastLines(string(out), 1),
 		"budget_s": budget,
 	}
 	if err == nil {
